@@ -16,12 +16,27 @@ import (
 )
 
 func runC16StoresOnSuccess(c *Ctx, P string, upd *ssa.Function) {
-	p := c.P
-	key := "fn=UpdatePolicyOptions stores-on-success"
 	isStore := func(in ssa.Instruction) bool {
 		ci, ok := in.(ssa.CallInstruction)
 		return ok && atomicPtrOp(ci, "Store") && len(ci.Common().Args) > 0 && isMutexField(ci.Common().Args[0], "policy")
 	}
+	storesOnSuccess(c, P, upd, "fn=UpdatePolicyOptions stores-on-success", "UpdatePolicyOptions", isStore)
+	// the export-level entry point must hand every accepted update on to UpdatePolicyOptions
+	if ueo := c.P.Fn("(*AbsfsNFS).UpdateExportOptions"); ueo != nil && len(ueo.Blocks) > 0 {
+		forwards := func(in ssa.Instruction) bool {
+			ci, ok := in.(ssa.CallInstruction)
+			if !ok {
+				return false
+			}
+			f := staticCallee(ci)
+			return f == upd || isStore(in)
+		}
+		storesOnSuccess(c, P, ueo, "fn=UpdateExportOptions forwards-policy", "UpdateExportOptions", forwards)
+	}
+}
+
+func storesOnSuccess(c *Ctx, P string, upd *ssa.Function, key, name string, isStore func(ssa.Instruction) bool) {
+	p := c.P
 	res := follow(followSpec{Fn: upd, Start: []*ssa.BasicBlock{upd.Blocks[0]}, Closes: isStore,
 		ExitOK: func(r *ssa.Return) bool {
 			return len(r.Results) > 0 && !isNilConst(retVal(r, len(r.Results)-1))
@@ -85,8 +100,8 @@ func runC16StoresOnSuccess(c *Ctx, P string, upd *ssa.Function) {
 	case guarded && len(missing) == 0:
 		c.ok(P, "swap", key, pos, "the only success return without a store is guarded by a comparison of every PolicyOptions field (nothing to swap)")
 	case guarded:
-		c.bad(P, "swap", key, pos, "UpdatePolicyOptions reports success without storing the new policy when a comparison finds it unchanged, but that comparison ignores PolicyOptions."+strings.Join(missing, ", ")+": an update that changes only such a field (e.g. switching ReadOnly on) is accepted and never takes effect")
+		c.bad(P, "swap", key, pos, name+" reports success without storing the new policy when a comparison finds it unchanged, but that comparison ignores PolicyOptions."+strings.Join(missing, ", ")+": an update that changes only such a field (e.g. switching ReadOnly on) is accepted and never takes effect")
 	default:
-		c.bad(P, "swap", key, pos, "UpdatePolicyOptions can report success on a path that never stores the new policy ("+p.pathString(res.Witness)+"): the accepted update does not take effect")
+		c.bad(P, "swap", key, pos, name+" can report success on a path that never stores the new policy ("+p.pathString(res.Witness)+"): the accepted update does not take effect")
 	}
 }
